@@ -1353,7 +1353,105 @@ func newBoundsFn(p *Prog, fw *fieldWrites, f *ssa.Function) *boundsFn {
 	bf.buildClasses()
 	bf.buildBase()
 	bf.inferInvariants()
+	bf.callerPreconditions()
 	return bf
+}
+
+var precondBusy = map[*ssa.Function]bool{}
+var precondCache = map[*ssa.Function]*boundsFn{}
+
+// callerPreconditions: a small unexported helper that is only ever called
+// directly inherits, for a slice field of one of its pointer parameters that
+// it reads before any write, the lower bound on the field's length that EVERY
+// call site in the package establishes for that argument (k <= len, k <= 4).
+// A phase helper extracted from a function thus keeps the guard its caller
+// applies before the call.
+func (bf *boundsFn) callerPreconditions() {
+	f := bf.fn
+	if !smallHelper(f) || bf.p.cg == nil || precondBusy[f] {
+		return
+	}
+	calls := bf.p.cg.callers[f]
+	if len(calls) == 0 {
+		return
+	}
+	for _, vf := range bf.p.cg.valueFuncs {
+		if vf == f {
+			return // used as a value: unknown callers
+		}
+	}
+	precondBusy[f] = true
+	defer func() { precondBusy[f] = false }()
+	first := f.Blocks[0].Instrs[0]
+	eachInstr(f, func(ins ssa.Instruction) {
+		ld, ok := ins.(*ssa.UnOp)
+		if !ok || ld.Op != token.MUL || !isSliceOrString(ld.Type()) {
+			return
+		}
+		fa, ok := ld.X.(*ssa.FieldAddr)
+		if !ok {
+			return
+		}
+		pi := -1
+		for i, prm := range f.Params {
+			if fa.X == ssa.Value(prm) {
+				pi = i
+			}
+		}
+		if pi < 0 {
+			return
+		}
+		if ssa.Instruction(ld) != first && bf.writeBetween(first, ld, ld.X) {
+			return
+		}
+		best := int64(99)
+		for _, c := range calls {
+			caller := c.Parent()
+			if caller == nil || caller == f || pi >= len(c.Common().Args) || precondBusy[caller] || c.Common().IsInvoke() || c.Common().StaticCallee() != f {
+				return
+			}
+			if _, isCall := c.(*ssa.Call); !isCall {
+				return // go / defer: runs later
+			}
+			cbf, ok := precondCache[caller]
+			if !ok {
+				cbf = newBoundsFn(bf.p, bf.fw, caller)
+				precondCache[caller] = cbf
+			}
+			arg := c.Common().Args[pi]
+			k := int64(0)
+			eachInstr(caller, func(i2 ssa.Instruction) {
+				ld2, ok := i2.(*ssa.UnOp)
+				if !ok || ld2.Op != token.MUL || !isSliceOrString(ld2.Type()) {
+					return
+				}
+				fa2, ok := ld2.X.(*ssa.FieldAddr)
+				if !ok || fa2.X != arg || fa2.Field != fa.Field {
+					return
+				}
+				ci, isIns := c.(ssa.Instruction)
+				if !isIns || !before(ld2, ci) || cbf.writeBetween(ld2, ci, ld2.X) {
+					return
+				}
+				la, lo := cbf.lenAtom(ld2)
+				for kk := int64(4); kk >= 1; kk-- {
+					if cbf.prove("0", kk, la, lo, ci, nil) {
+						if kk > k {
+							k = kk
+						}
+						break
+					}
+				}
+			})
+			if k < best {
+				best = k
+			}
+		}
+		if best >= 1 && best < 99 {
+			la, lo := bf.lenAtom(ld)
+			bf.addBase("0", best, la, lo, 0, fmt.Sprintf("every call of %s establishes len >= %d for this field of the argument", funcName(f), best), ld)
+		}
+	})
 }
 
 // spillOf: the local variable a value receiver/parameter was spilled to
